@@ -1,5 +1,6 @@
 import Driver.Common
 import TxdbusModel.Bus.Route
+import TxdbusModel.Bus.RouteFull
 /-!
 Driver for property C14: the routing model of the built-in bus, one event per line.
 
@@ -9,16 +10,28 @@ uses names without white space).
   reset [orig]                         -> ok           (orig: the model of the code before F21/F22)
   connect                              -> ok <id>
   msg <i> <type 1-4> <serial> <flags> <path> <iface> <member> <error_name> <reply_serial> <dest>
-      <sender> <extra> <body> OP            (flags = the whole flags byte; extra = token for unknown header fields)               -> OUT
-        OP = always | addmatch <type 1-4|~> <sender> <iface> <member> <path> <destination> | exec <k> EFF*k
+      <sender> <extra> <body> <args> OP     (flags = the whole flags byte; extra = token for unknown header fields)               -> OUT
+        OP = always | addmatch RULE | exec <k> EFF*k
   disc <i> <k> EFF*k                   -> OUT
-        EFF = own <name> <j> | unown <name> | sig <j> <member> <body> | bcast <member> <body>
+        EFF = own <name> <j> | unown <name> | sig <j> <member> <body> <args> | bcast <member> <body> <args>
 
-  OUT = named=<i>:<name>|~ lose=<0|1> n=<k> ; <to> <payload> ; ...
+  args (the body as match rules see it, C12's format): `~` = no body, `.` = [], otherwise `,`-separated `s<hex str>` | `o`
+  RULE (C12's format, the kwargs of router.addMatch): 10 tokens mtype sender interface member path path_namespace
+        destination args arg_paths arg0namespace; optional string `~` / `-` / 6 hex digits per code point;
+        pair list `~` | `.` | `idx:hexstr,...`
+
+  OUT = named=<i>:<name>|~ lose=<0|1> n=<k> ; <to> <payload> ; ... [ rule=RULE('/'-joined) | rule=valueerror]
         payload = F type serial flags path iface member error_name reply_serial dest sender extra body
                 | H reply_serial name | R reply_serial dest | S path iface member dest body
+
+The rule a registration uses is the MODEL's reading of the rule text the AddMatch call carries (`addMatchOp`:
+C12's model of `_parseMatchRule` + the kwargs loop); it is printed as `rule=` and compared with the kwargs observed at
+the real `router.addMatch`.  Only when the text is outside the modelled domain the observed kwargs are used.
+`ruleholds <RULE> <type> <path> <iface> <member> <dest> <sender> <args>` -> 0 | 1   (`fullGen.holds`, a probe)
+`evalarg0` -> 0 | 1   (the switch generated from router.py)
 -/
 open Txdbus.BusRoute
+open Txdbus.Route (Str Arg RuleArgs)
 
 namespace Driver.C14
 
@@ -43,6 +56,63 @@ def mtypeOf? : String → Option MType
 def mtypeNum : MType → String
   | .call => "1" | .ret => "2" | .err => "3" | .sig => "4"
 
+/-! tokens shared with the C12 driver: optional strings in hex, pair lists, rules, bodies -/
+
+def optStr? (t : String) : Option (Option Str) :=
+  if t == "~" then some none else (Driver.hexToChars? t).map some
+
+def showOptStr : Option Str → String
+  | none => "~"
+  | some s => Driver.charsToHex s
+
+def pair? (t : String) : Option (Nat × Str) :=
+  match t.splitOn ":" with
+  | [i, s] => do
+    let n ← i.toNat?
+    let cs ← Driver.hexToChars? s
+    pure (n, cs)
+  | _ => none
+
+def pairs? (t : String) : Option (Option (List (Nat × Str))) :=
+  if t == "~" then some none
+  else if t == "." then some (some [])
+  else ((t.splitOn ",").mapM pair?).map some
+
+def showPairs : Option (List (Nat × Str)) → String
+  | none => "~"
+  | some [] => "."
+  | some l => ",".intercalate (l.map fun iv => toString iv.1 ++ ":" ++ Driver.charsToHex iv.2)
+
+def rule? : List String → Option (RuleArgs × List String)
+  | t :: s :: i :: m :: p :: n :: d :: a :: q :: z :: rest => do
+    let mtype ← optStr? t
+    let sender ← optStr? s
+    let iface ← optStr? i
+    let member ← optStr? m
+    let path ← optStr? p
+    let pathNs ← optStr? n
+    let dest ← optStr? d
+    let args ← pairs? a
+    let argPaths ← pairs? q
+    let arg0ns ← optStr? z
+    pure ({ mtype, sender, iface, member, path, pathNs, dest, args, argPaths, arg0ns }, rest)
+  | _ => none
+
+def showRule (a : RuleArgs) : String :=
+  "/".intercalate [showOptStr a.mtype, showOptStr a.sender, showOptStr a.iface, showOptStr a.member,
+    showOptStr a.path, showOptStr a.pathNs, showOptStr a.dest, showPairs a.args, showPairs a.argPaths,
+    showOptStr a.arg0ns]
+
+def arg? (t : String) : Option Arg :=
+  if t == "o" then some .other
+  else if t.startsWith "s" then (Driver.hexToChars? (t.drop 1).toString).map .str
+  else none
+
+def body? (t : String) : Option (Option (List Arg)) :=
+  if t == "~" then some none
+  else if t == "." then some (some [])
+  else ((t.splitOn ",").mapM arg?).map some
+
 def parseEffects : Nat → List String → Option (List Effect × List String)
   | 0, ts => some ([], ts)
   | k + 1, "own" :: n :: j :: ts => do
@@ -52,35 +122,33 @@ def parseEffects : Nat → List String → Option (List Effect × List String)
   | k + 1, "unown" :: n :: ts => do
       let (es, r) ← parseEffects k ts
       pure (.unsetOwner (name! n) :: es, r)
-  | k + 1, "sig" :: j :: mem :: body :: ts => do
+  | k + 1, "sig" :: j :: mem :: body :: args :: ts => do
       let j ← j.toNat?
+      let args ← body? args
       let (es, r) ← parseEffects k ts
-      pure (.signalTo j (name! mem) (name! body) :: es, r)
-  | k + 1, "bcast" :: mem :: body :: ts => do
+      pure (.signalTo j (name! mem) (name! body) args :: es, r)
+  | k + 1, "bcast" :: mem :: body :: args :: ts => do
+      let args ← body? args
       let (es, r) ← parseEffects k ts
-      pure (.broadcast (name! mem) (name! body) :: es, r)
+      pure (.broadcast (name! mem) (name! body) args :: es, r)
   | _, _ => none
 
-def parseOp : List String → Option (BusOp SimpleRule)
+def parseOp : List String → Option (BusOp FullRule)
   | ["always"] => some .always
-  | ["addmatch", t, snd, i, m, p, d] =>
-      if t == "~" then
-        some (.addMatch { sender := optName snd, iface := optName i, member := optName m, path := optName p,
-                          destination := optName d })
-      else do
-        let t ← mtypeOf? t
-        pure (.addMatch { mtype := some t, sender := optName snd, iface := optName i, member := optName m,
-                          path := optName p, destination := optName d })
+  | "addmatch" :: ts => do
+      let (a, rest) ← rule? ts
+      if rest.isEmpty then pure (.addMatch a) else none
   | "exec" :: k :: ts => do
       let k ← k.toNat?
       let (es, r) ← parseEffects k ts
       if r.isEmpty then pure (.exec es) else none
   | _ => none
 
-def parseEvent : List String → Option (Event SimpleRule)
+def parseEvent : List String → Option (Event FullRule)
   | ["connect"] => some .connect
-  | "msg" :: i :: ty :: serial :: flags :: path :: iface :: member :: err :: rs :: dest :: sender :: extra :: body :: op => do
+  | "msg" :: i :: ty :: serial :: flags :: path :: iface :: member :: err :: rs :: dest :: sender :: extra :: body :: args :: op => do
       let i ← i.toNat?
+      let args ← body? args
       let ty ← mtypeOf? ty
       let serial ← serial.toNat?
       let flags ← flags.toNat?
@@ -90,7 +158,7 @@ def parseEvent : List String → Option (Event SimpleRule)
                      otherFlags := flags - flags % 4, extra := name! extra,
                      path := optName path, iface := optName iface, member := optName member,
                      errorName := optName err, replySerial := rs, dest := optName dest,
-                     sender := optName sender, body := name! body } op)
+                     sender := optName sender, body := name! body, args := args } op)
   | "disc" :: i :: k :: ts => do
       let i ← i.toNat?
       let k ← k.toNat?
@@ -114,19 +182,71 @@ def showOut (o : Out) : String :=
   s!"named={named} lose={if o.lose then 1 else 0} n={o.deliveries.length}" ++ String.join ds
 
 structure St where
-  cfg : Cfg SimpleRule := repaired
-  s : State SimpleRule := {}
+  cfg : Cfg FullRule := fullGen
+  s : State FullRule := {}
+
+def isAddMatchCall (m : Msg) : Bool :=
+  m.mtype == .call && m.dest == some busName && m.member == some "AddMatch".toList
+
+/-- The operation the model runs and the `rule=` suffix: the registration follows the model's reading of the rule
+text (see the header). -/
+def modelOp (m : Msg) (op : BusOp FullRule) : BusOp FullRule × String :=
+  match op with
+  | .addMatch observed =>
+    match (ruleTextOf m).map addMatchOp with
+    | some (some (.addMatch a)) => (.addMatch a, " rule=" ++ showRule a)
+    | some (some _) => (.exec [], " rule=valueerror")
+    | _ => (.addMatch observed, " rule=" ++ showRule observed)
+  | .exec [] =>
+    if isAddMatchCall m then
+      match (ruleTextOf m).map addMatchOp with
+      | some (some (.addMatch a)) => (.addMatch a, " rule=" ++ showRule a)
+      | _ => (op, "")
+    else (op, "")
+  | _ => (op, "")
+
+def viewMsg? : List String → Option Msg
+  | [ty, path, iface, member, dest, sender, args] => do
+      let ty ← mtypeOf? ty
+      let args ← body? args
+      pure { mtype := ty, serial := 0, noReply := false, noAutoStart := false, otherFlags := 0, extra := [],
+             path := optName path, iface := optName iface, member := optName member, errorName := none,
+             replySerial := none, dest := optName dest, sender := optName sender, body := [], args := args }
+  | _ => none
 
 def stepLine (st : St) (line : String) : St × String :=
   match Driver.words line with
   | ["reset"] => ({}, "ok")
-  | ["reset", "orig"] => ({ cfg := original }, "ok")
+  | ["reset", "orig"] => ({ cfg := fullOriginalGen }, "ok")
+  | ["evalarg0"] => (st, if Txdbus.Gen.BusRoute.evaluatesArg0ns then "1" else "0")
+  | "ruleholds" :: ts =>
+    match rule? ts with
+    | none => (st, "error:parse")
+    | some (a, rest) =>
+      match viewMsg? rest with
+      | none => (st, "error:parse")
+      | some m =>
+        match Txdbus.Route.mkRule Txdbus.Route.Tables.gen a with
+        | .error _ => (st, "error:mkrule")
+        | .ok _ => (st, if fullGen.holds a m then "1" else "0")
   | ws =>
     match parseEvent ws with
     | none => (st, "error:parse")
     | some .connect =>
         let (s', _) := step st.cfg st.s .connect
         ({ st with s := s' }, s!"ok {st.s.conns.length}")
+    | some (.msg i m op) =>
+        let (op', suffix) := modelOp m op
+        match op' with
+        | .addMatch a =>
+          match Txdbus.Route.mkRule Txdbus.Route.Tables.gen a with
+          | .error _ => (st, "error:mkrule")      -- a parameter name of addMatch the model does not know
+          | .ok _ =>
+            let (s', o) := step st.cfg st.s (.msg i m op')
+            ({ st with s := s' }, showOut o ++ suffix)
+        | _ =>
+          let (s', o) := step st.cfg st.s (.msg i m op')
+          ({ st with s := s' }, showOut o ++ suffix)
     | some e =>
         let (s', o) := step st.cfg st.s e
         ({ st with s := s' }, showOut o)
